@@ -336,6 +336,43 @@ def linked (rd : RegionData) (rec : BioRecord) : Bool :=
   linkedKind "subregion" (·.q.subNumber) (subDict rd) rec &&
   (protoAreas rd ++ candDict rd ++ subDict rd).all fun a => areaShape rec.length rd a.2
 
+/-! ### the whole picture handed to `write_to_genbank` is consistent (hypothesis of `extract_reloads`) -/
+
+def nodupB : List Int → Bool
+  | [] => true
+  | x :: xs => !xs.contains x && nodupB xs
+
+/-- for one kind of area: every area of the region has a feature of the kind carrying its number, the kind's
+    features carry distinct numbers, and the areas lie inside the region -/
+def consistentKind (type : String) (num : BioFeature → Option Int) (areas : List (Int × Loc)) (rd : RegionData)
+    (rec : BioRecord) : Bool :=
+  (areas.all fun a => rec.features.any fun f => f.type == type && num f == some a.1) &&
+  nodupB ((ofType type rec.features).filterMap num) &&
+  areas.all fun a => insideRegion rec.length rd a.2
+
+def coreAreas (rd : RegionData) : List (Int × Loc) := (protoDict rd).map fun kv => (kv.1, kv.2.core)
+
+/-- `linked`, and: features are told apart by their `tag`; a feature running over the origin reaches from the
+    record's first to its last base; per kind of area the record's features and `RegionData` describe the same
+    areas (`consistentKind`); `proto_core` features carry the core location of the protocluster of their number,
+    which has the shape of an area location -/
+def consistent (rd : RegionData) (rec : BioRecord) : Bool :=
+  linked rd rec &&
+  nodupB (rec.features.map (·.tag)) &&
+  (rec.features.all fun f => !bridgesOrigin f.loc || (decide (f.loc.start = 0) && decide (f.loc.end = rec.length))) &&
+  consistentKind "protocluster" (·.q.protoNumber) (protoAreas rd) rd rec &&
+  consistentKind "cand_cluster" (·.q.candNumber) (candDict rd) rd rec &&
+  consistentKind "subregion" (·.q.subNumber) (subDict rd) rd rec &&
+  linkedKind "proto_core" (·.q.protoNumber) (coreAreas rd) rec &&
+  consistentKind "proto_core" (·.q.protoNumber) (coreAreas rd) rd rec &&
+  (coreAreas rd).all fun a => areaShape rec.length rd a.2
+
+/-- the `core_location` text of every written protocluster reads back (`location_from_string`) to a location
+    covering exactly the bases of the written `proto_core` feature with the same number (Prop form of `coresAgree`) -/
+def CoresAgree (fs : List BioFeature) : Prop :=
+  ∀ g ∈ fs, g.type = "protocluster" → ∃ t core, g.q.coreLoc = some t ∧ locFromString t = some core ∧
+    ∃ g' ∈ fs, g'.type = "proto_core" ∧ g'.q.protoNumber = g.q.protoNumber ∧ ∀ i, core.mem i = g'.loc.mem i
+
 /-- KF-C12-abutting-exons: a feature that `offset_location` has to re-assemble (one running over the origin, or
     one after the origin whose end lands on the file's end) has three exons in a row each ending where the next
     starts; the merge step keeps `previous.start` instead of the start of what it merged so far and drops bases -/
